@@ -17,7 +17,7 @@ structure SidConf where
   extensionAlias : List (Str × List Str)
   basetypedNarrowing : List (Str × Str)
   typedNarrowing : List (Str × Str)
-  deriving Repr, Inhabited
+  deriving Repr, Inhabited, DecidableEq
 
 /-- one path configuration (`PathConfig`) -/
 structure PathConf where
@@ -28,7 +28,7 @@ structure PathConf where
   defaults : List (Str × Str)
   /-- `search_path_mapping` -/
   searchMapping : List (Str × Str)
-  deriving Repr, Inhabited
+  deriving Repr, Inhabited, DecidableEq
 
 structure Conf where
   sid : SidConf
@@ -37,7 +37,7 @@ structure Conf where
   defaultPath : Str
   /-- `path_data_suffix` -/
   dataSuffix : Str
-  deriving Repr, Inhabited
+  deriving Repr, Inhabited, DecidableEq
 
 namespace SidConf
 def resolver (c : SidConf) : Resolver := { templates := c.templates, checkDup := false }
